@@ -3,7 +3,7 @@
    PARTIAL for the re-parse clause: that parsing the displayed text yields the same executable lines, wants and
    modes is checked on the implementation for every generated doctest (it needs the tokenizer); what is proved is
    that the displayed lines ARE the parsed lines, and what every displayed number is. *)
-From XD Require Import Model.Base Model.Parser Model.Text Model.Format Spec.Partition Spec.Labels Proofs.FormatProofs Proofs.GroupLocal Proofs.Reparse.
+From XD Require Import Model.Base Model.Parser Model.Text Model.Format Spec.Partition Spec.Labels Proofs.FormatProofs Proofs.FormatTrailing Proofs.GroupLocal Proofs.Reparse.
 
 (* without colours or numbers, with or without prompts and wants: each source line and each want line of each part,
    once and in order (for parts whose lines hold no line-break characters) *)
@@ -49,6 +49,41 @@ Print Assumptions C18_splitlines_join.
 Theorem C18_srclines_join : forall ls, Forall (fun l => Clean l /\ l <> []) ls -> srclines (join_nl ls) = ls.
 Proof. exact srclines_join. Qed.
 Print Assumptions C18_srclines_join.
+
+(* lines that may be EMPTY (an empty line inside a bracket, the bare '...' that closes a block in front of the output): the
+   splitter gives every line back except an empty LAST one, and so does the display of a part *)
+Theorem C18_srclines_join_all : forall ls, Forall Clean ls -> srclines (join_nl ls) = drop_last_empty ls.
+Proof. exact srclines_join_all. Qed.
+Print Assumptions C18_srclines_join_all.
+
+Theorem C18_format_part_lines_all : forall p want prefix startline nd, BreakFreePart p ->
+  format_part_pieces p (mkFmt false want prefix None) startline nd =
+  (drop_last_empty (if prefix then orig_lines p else exec_lines p), (if want then drop_last_empty (want_lines p) else [])).
+Proof. exact format_part_plain_all. Qed.
+Print Assumptions C18_format_part_lines_all.
+
+(* with prompts every line carries its prompt, so nothing is lost, also behind a bare terminator ... *)
+Theorem C18_format_part_prompted_complete : forall p want startline nd, BreakFreePart p ->
+  Forall (fun l : str => l <> []) (orig_lines p) -> Forall (fun l : str => l <> []) (want_lines p) ->
+  format_part_pieces p (mkFmt false want true None) startline nd = (orig_lines p, (if want then want_lines p else [])).
+Proof. exact format_part_prompted_complete. Qed.
+Print Assumptions C18_format_part_prompted_complete.
+
+(* ... without prompts exactly the terminator's empty line is not shown (the check's `shown_source`) *)
+Theorem C18_format_part_promptless_terminator : forall p body want startline nd, BreakFreePart p -> body <> [] ->
+  exec_lines p = body ++ [[]] ->
+  fst (format_part_pieces p (mkFmt false want false None) startline nd) = body.
+Proof. exact format_part_promptless_terminator. Qed.
+Print Assumptions C18_format_part_promptless_terminator.
+
+Theorem C18_terminated_part_example :
+  BreakFreePart demo_terminated_part /\
+  (format_part_pieces demo_terminated_part (mkFmt false true true None) 1 None =
+    (orig_lines demo_terminated_part, [[122%N]])) /\
+  (format_part_pieces demo_terminated_part (mkFmt false true false None) 1 None =
+    ([[105;102;32;120;58]; [32;32;32;32;121]]%N, [[122%N]])).
+Proof. exact demo_terminated_display. Qed.
+Print Assumptions C18_terminated_part_example.
 
 (* the display in terms of the DOCSTRING (prose included): with prompts and wants, without colours or numbers, it is the
    docstring's source and want lines chunk by chunk, each chunk de-indented by the indentation of its first line,
